@@ -19,7 +19,7 @@ RULE = ("cases = (mode, 32K chunk of the 4 MiB offset space) x 3 modes, every of
         "crosses a bank boundary.")
 ASSUMPTIONS = ["textbook LoROM/HiROM closed forms", "low_rom_2 round trip only claimed below offset 0x200000 (statement)"]
 MODES = ("low_rom", "low_rom_2", "high_rom")
-BASES = [0, 1, 0x7FFF, 0x8000, 0x8001, 0xFFFF, 0x10000, 0x12345, 0x1F8000, 0x1FFFFF, 0x200000, 0x37FE00, 0x3F0000]
+BASES = [0, 1, 0x7FFF, 0x8000, 0x12F000, 0x00FFFF, 0x8001, 0xFFFF, 0x10000, 0x12345, 0x1F8000, 0x1FFFFF, 0x200000, 0x37FE00, 0x3F0000]
 
 
 def bound(tier):
@@ -32,6 +32,7 @@ def cases(tier, seed):
     for mode in MODES:
         for chunk in range(128):
             yield ("conv", mode, chunk, tier)
+    yield ("interleaved",)
     for base in BASES:
         yield ("lptr", base)
     for base in (BASES if tier == "thorough" else BASES[3:4]):
@@ -99,6 +100,40 @@ def run_case(case):
                         break
         return {"evals": n, "nt_count": nt, "outcome": f"{mode}:{'in-bus' if inbus else 'outside-bus'}",
                 "extra": {"bus_agreement_checked": inbus}, "violations": viol}
+    if kind == "interleaved":
+        # conversions of different modes interleaved call by call: a result must not depend on what was converted before
+        n = 0
+        offs = [0, 1, 0x7FFF, 0x8000, 0xFFFF, 0x10000, 0x18000, 0x1FFFFF, 0x200000, 0x208000, 0x3F8000, 0x3FFFFF]
+        for a_mode in MODES:
+            for b_mode in MODES:
+                for oa in offs:
+                    for ob in offs:
+                        if b_mode == "low_rom_2" and ob >= 0x200000:
+                            continue
+                        rom_to_snes(oa, RomType[a_mode])
+                        back = snes_to_rom(expected_snes(ob, b_mode))
+                        n += 1
+                        if back != ob:
+                            viol.append({"key": f"legacy:snes_to_rom-depends-on-previous-call:{b_mode}",
+                                         "msg": f"after rom_to_snes({oa:#x},{a_mode}), snes_to_rom({expected_snes(ob, b_mode):#x}) = {back:#x}, expected {ob:#x}"})
+                            break
+                        got = rom_to_snes(ob, RomType[b_mode])
+                        if got != expected_snes(ob, b_mode):
+                            viol.append({"key": f"legacy:rom_to_snes-depends-on-previous-call:{b_mode}", "msg": f"{ob:#x} {b_mode}: {got:#x}"})
+                            break
+        from script.formulas import base_relative_16bits_pointer_formula, long_low_rom_pointer
+        convs = [(b, long_low_rom_pointer(b), base_relative_16bits_pointer_formula(b)) for b in BASES]
+        for p_ in (0, 12, 0x7FFF, 0x8000, 0x1234):
+            for b, lp, br in convs:
+                if b + p_ <= 0x3FFFFF:
+                    n += 1
+                    a = expected_snes(b + p_, "low_rom")
+                    if lp(p_) != struct.pack("<I", a)[:3]:
+                        viol.append({"key": "legacy:long_low_rom_pointer", "msg": f"interleaved converters: base {b:#x} p {p_:#x}: {lp(p_)!r}"})
+                v = bytes((p_ & 0xFF, (p_ >> 8) & 0xFF))
+                if br(v) != (p_ & 0xFFFF) + b:
+                    viol.append({"key": "legacy:base_relative_16bits", "msg": f"interleaved: base {b:#x} value {p_:#x}: {br(v):#x}"})
+        return {"evals": n, "nt_count": n, "outcome": "interleaved", "violations": viol[:6]}
     if kind == "lptr":
         from script.formulas import long_low_rom_pointer
         base = case[1]
